@@ -16,6 +16,25 @@ NOTES = ('Every check executes the implementation in /repo/src (working tree) '
          'DESIGN.md.')
 
 CHECKS = [
+    {'id': 'C17', 'engine': 'explore', 'level': 'exploration',
+     'design_ref': 'DESIGN.md §4 C17',
+     'technique': 'exhaustive enumeration of every Unicode code point (block '
+                  'runs with bisection to single code points) and of outcome '
+                  'kinds on the real runner with --xml; reports parsed with '
+                  'expat and compared with spec+trace ground truth',
+     'text': 'All 1114112 code points are placed in an exception message and '
+             'all BMP code points in a test method name (2048 per run, '
+             'bisected on failure so each code point is decided); 18 hostile '
+             'strings go into messages, subtest parameters and method names; '
+             '16 outcome kinds x --repeat 1/2 and an import error are '
+             'reported. Every report file must parse with expat, each suite\'s '
+             'tests/errors/failures attributes must equal its element counts, '
+             'passing tests appear once per iteration and every bad event is '
+             'a testcase under the test\'s own class and name with a failure '
+             'or error child.',
+     'note': 'doctest/manuel name parsers are only exercised through '
+             'unittest cases here; strings are drawn from a finite list '
+             '(all single code points, not all strings).'},
     {'id': 'C14', 'engine': 'explore', 'level': 'exploration',
      'design_ref': 'DESIGN.md §4 C14',
      'technique': 'exhaustive small-scope enumeration of directory trees x '
